@@ -12,7 +12,8 @@
 (* to, and the driver writes a Switch line whenever the next line belongs to another duty object *)
 (* than the one before; the invariants are evaluated on the pipeline of the duty object whose    *)
 (* call the line belongs to, against THAT object's duty.  A call that neither went on nor        *)
-(* returned is logged by the driver's watchdog as Hung, which no action explains.                *)
+(* returned is logged by the driver's watchdog as Hung, a call whose goroutine panicked as Crash:   *)
+(* lines that no action explains.                                                                *)
 EXTENDS Proposer, TraceLib
 
 VARIABLE l
@@ -22,7 +23,8 @@ TraceInit ==
     /\ l = 1
     /\ k = 1 /\ cur = 1 /\ parked = NoneParked /\ past = {}
     /\ duty = [slot |-> 0, v |-> 0]
-    /\ cfg = [graffiti |-> FALSE, nodeclient |-> FALSE, auctioneer |-> FALSE, unblindAll |-> FALSE]
+    /\ cfg = [graffiti |-> FALSE, nodeclient |-> FALSE, auctioneer |-> FALSE, unblindAll |-> FALSE,
+              strategy |-> "opaque", conf |-> {}]
     /\ pc = "done"
     /\ acct = NoAcct /\ randao = NoRandao /\ graffiti = "none" /\ nodeclient = "none" /\ auction = NoAuction
     /\ preq = NoPreq /\ prop = NoProp /\ sreq = NoSreq /\ sig = 0
@@ -46,7 +48,7 @@ TraceReset ==
     /\ k' = 1 /\ cur' = 1 /\ parked' = NoneParked /\ past' = {}
     /\ duty' = [slot |-> T.slot, v |-> T.v]
     /\ cfg' = [graffiti |-> T.cfg.graffiti, nodeclient |-> T.cfg.nodeclient, auctioneer |-> T.cfg.auctioneer,
-               unblindAll |-> T.cfg.unblindAll]
+               unblindAll |-> T.cfg.unblindAll, strategy |-> T.cfg.strategy, conf |-> SeqToSet(T.cfg.conf)]
     /\ ResetPipeline
 
 TraceAccounts == IsEvent("Accounts") /\ AccountsCall(T.epoch, T.idxs, T.out)
@@ -56,7 +58,13 @@ TracePropose  == IsEvent("ProposeCall") /\ ProposeCall
 TraceDrop     == IsEvent("Drop") /\ Drop
 TraceGraffiti == IsEvent("Graffiti") /\ T.out \in {"static", "template", "err"} /\ GraffitiCall(T.out)
 TraceNodeClient == IsEvent("NodeClient") /\ T.out \in {"ok", "err"} /\ NodeClientCall(T.out)
-TraceAuction  == IsEvent("Auction") /\ AuctionCall(T.out, SeqToSet(T.all), SeqToSet(T.providers))
+\* the auction as a component (cfg.strategy # "opaque": the real block relay and builder-bid strategy): the block
+\* relay's account lookup, every request for a bid a relay received while the auction was going on, and - also for
+\* the opaque auctioneer - what AuctionBlock returned to the proposer (err / results / nilnil)
+TraceAuctionStart == IsEvent("AuctionStart") /\ T.out \in {"ok", "err"} /\ AuctionStart(T.out)
+TraceBid      == IsEvent("Bid") /\ T.relay \in Relays /\ T.out \in BidOuts /\ BidCall(T.relay, T.out)
+TraceAuction  == IsEvent("Auction") /\ T.out \in {"err", "results", "nilnil"}
+                 /\ AuctionCall(T.out, SeqToSet(T.all), SeqToSet(T.providers))
 TraceProposal == IsEvent("Proposal") /\ ProposalCall(T.slot, T.zerograffiti, T.reveal, T.out, PropOf(T.p))
 TraceSign     == IsEvent("Sign") /\ SignCall(T.account, T.slot, T.v, RootOf(T.parent), RootOf(T.state),
                                              RootOf(T.body), T.out, T.token)
@@ -73,6 +81,7 @@ TraceNext ==
     \/ TraceReset \/ TraceAccounts \/ TraceRandao \/ TracePropose \/ TraceGraffiti \/ TraceAuction
     \/ TraceProposal \/ TraceSign \/ TraceUnblind \/ TraceCancel \/ TraceSubmit \/ TraceRet
     \/ TraceNodeClient \/ TraceNewDuty \/ TraceSwitch \/ TracePrepRet \/ TraceDrop
+    \/ TraceAuctionStart \/ TraceBid
 
 TraceSpec == TraceInit /\ [][TraceNext]_tvars
 
